@@ -58,9 +58,15 @@ func (run *FuncRun) execCall(st *State, in *ssa.Call, b *ssa.BasicBlock, idx int
 	case *FuncVal:
 		return run.callFunction(st, in, b, idx, f.Fn, nil, args)
 	case *Closure:
+		run.pendingSrc = f.Src
 		return run.callFunction(st, in, b, idx, f.Fn, f.Bindings, args)
 	}
 	// dynamic call of an unknown function value
+	if cb := run.eng.callbackContractOfValue(c.Value); cb != nil && cb.Callback {
+		run.usedContracts[cb.Key] = true
+		run.set(st, in, run.callCallback(st, cb, c.Signature(), args, in))
+		return true
+	}
 	if fc := run.eng.funcValueContract(run, c.Value); fc != nil {
 		res := run.applyContract(st, fc, c.Signature(), nil, args, in, nil)
 		run.set(st, in, res)
@@ -304,6 +310,8 @@ type assignSet struct {
 	globals map[string]bool
 	anyFields map[string]map[int]bool // component -> fields assignable in every object
 	wholeComps map[string]bool        // components in which every object may change
+	allBelow *Term      // callback effect: every object older than this allocation mark may change ...
+	keep     *assignSet // ... except these
 }
 
 func newAssignSet() *assignSet {
@@ -368,6 +376,17 @@ func (env *CEnv) assignSetOfItems(items []AssignItem, where string) *assignSet {
 				as.anyFields[comp] = map[int]bool{}
 			}
 			as.anyFields[comp][fi] = true
+		case "callback":
+			var cb *FuncContract
+			for f := env.run.fn; f != nil && cb == nil; f = f.Parent() {
+				cb = env.run.eng.contracts[env.run.eng.originKey(f)+"#"+it.Name]
+			}
+			if cb == nil || !cb.Callback {
+				fail("%s: assigns callback(%s): no callback contract for %s", fc.Where, it.Name, it.Name)
+			}
+			mark := env.run.entry.alloc
+			as.allBelow = &mark
+			as.keep = env.assignSetOfItems(cb.Preserves, cb.Where)
 		case "gstate":
 			x := env.eval(it.X)
 			comp := "Ghost:" + it.Name
@@ -471,7 +490,11 @@ func (run *FuncRun) checkFrame(st *State, env *CEnv, fc *FuncContract) {
 	for _, f := range pre.takeFacts() {
 		st.Assume(f)
 	}
-	run.checkFrameAgainst(st, run.entry, as, "frame", fc.Where)
+	base := run.entry
+	if st.frameBase != nil {
+		base = st.frameBase
+	}
+	run.checkFrameAgainst(st, base, as, "frame", fc.Where)
 }
 
 // checkFrameAgainst compares the current heap with a snapshot.
@@ -489,7 +512,7 @@ func (run *FuncRun) checkFrameAgainst(st *State, base *Snapshot, as *assignSet, 
 			continue
 		}
 		if strings.HasPrefix(name, "G:") {
-			if as.globals[strings.TrimPrefix(name, "G:")] {
+			if as.globals[strings.TrimPrefix(name, "G:")] || as.allBelow != nil {
 				continue
 			}
 			run.addObligation(st, kind, name, Eq(cur, init), "package-level variable "+name+" unchanged", fc.Where)
@@ -502,6 +525,15 @@ func (run *FuncRun) checkFrameAgainst(st *State, base *Snapshot, as *assignSet, 
 		decl := "(declare-const " + r + " Int)"
 		rt := Term{r, SInt}
 		hyps := []Term{Ge(rt, IntLit(0)), Lt(rt, base.alloc)}
+		if as.allBelow != nil && !(as.keep != nil && as.keep.wholeComps[name]) {
+			alts := []Term{Ge(rt, *as.allBelow)}
+			if as.keep != nil {
+				for _, w := range as.keep.whole[name] {
+					alts = append(alts, Eq(rt, w))
+				}
+			}
+			hyps = append(hyps, Or(alts...))
+		}
 		for _, w := range as.whole[name] {
 			hyps = append(hyps, Neq(rt, w))
 		}
@@ -563,7 +595,8 @@ func (run *FuncRun) applyContract(st *State, fc *FuncContract, sig *types.Signat
 			}
 		}
 	}
-	run.pendingBindings = nil
+	bindings, srcBindings := run.pendingBindings, run.pendingSrc
+	run.pendingBindings, run.pendingSrc = nil, nil
 	// bind parameters
 	names, ptypes := eng.paramNames(fc, sig, recvIface, callee)
 	if len(names) != len(args) {
@@ -625,7 +658,11 @@ func (run *FuncRun) applyContract(st *State, fc *FuncContract, sig *types.Signat
 		st.Assume(t)
 	}
 	// frame
-	if !fc.Pure {
+	if fc.Iterates != "" && fc.HasAssigns {
+		if !run.applyIterates(st, fc, env, names, args, in, callee, bindings, srcBindings) {
+			st.HavocAll("callee " + fc.Key + " iterates a callback whose effect is not described here")
+		}
+	} else if !fc.Pure {
 		if !fc.HasAssigns {
 			st.HavocAll("callee " + fc.Key + " has no assigns clause")
 		} else {
@@ -734,7 +771,7 @@ func (run *FuncRun) frameAxioms(name string, nw, old Term, preAlloc Term, as *as
 	reg := run.eng.reg
 	var out []string
 	if strings.HasPrefix(name, "G:") {
-		if as != nil && (as.all || as.globals[strings.TrimPrefix(name, "G:")]) {
+		if as != nil && (as.all || as.allBelow != nil || as.globals[strings.TrimPrefix(name, "G:")]) {
 			return nil
 		}
 		return []string{fmt.Sprintf("(assert (= %s %s))", nw.S, old.S)}
@@ -745,6 +782,17 @@ func (run *FuncRun) frameAxioms(name string, nw, old Term, preAlloc Term, as *as
 	r := run.freshName("r")
 	var conds []string
 	conds = append(conds, fmt.Sprintf("(< %s %s)", r, preAlloc.S))
+	if as != nil && as.allBelow != nil && !(as.keep != nil && as.keep.wholeComps[name]) {
+		// callback effect: objects allocated since the enclosing function was entered, and the
+		// explicitly preserved ones, keep their contents; everything older may change
+		alts := []string{fmt.Sprintf("(>= %s %s)", r, as.allBelow.S)}
+		if as.keep != nil {
+			for _, w := range as.keep.whole[name] {
+				alts = append(alts, fmt.Sprintf("(= %s %s)", r, w.S))
+			}
+		}
+		conds = append(conds, "(or "+strings.Join(alts, " ")+")")
+	}
 	if as != nil {
 		// the nil object (reference 0) can never be written
 		for _, w := range as.whole[name] {
